@@ -548,7 +548,7 @@ func GenV(r *Result) string {
 		"   package outside its own directory, with field order, exported-ness and rlp tags.\n" +
 		"   Regenerate: cd /verif/harness && go run ./cmd/c08 -gen /verif/coq/C08/Gen.v   — the C08 harness re-derives\n" +
 		"   this table on every run and compares it with this file (a stale file turns the check red). *)\n")
-	sb.WriteString("From Coq Require Import List NArith String.\nFrom V.C08 Require Import Desc.\nImport ListNotations.\nOpen Scope string_scope.\n\n")
+	sb.WriteString("From Coq Require Import List NArith String.\nFrom V.C08 Require Import Desc.\nImport ListNotations.\nLocal Open Scope string_scope.\n\n")
 	sb.WriteString("(* file, function, API, static type of the value, descriptor *)\nDefinition gen_sites : list (string * string * string * string * string) := [\n")
 	for i, s := range r.Sites {
 		if i > 0 {
